@@ -14,13 +14,13 @@ open Pycoin Pycoin.Wire Pycoin.Spec.Sighash Pycoin.Spec.Wire
 
 /-! ## legacy -/
 
-/-- C04.legacy_preimage_eq (widest scope): for every transaction with fields in range, every input index, every 32-bit hash-type word
-and every script code of which Core's `SerializeScriptCode` writes the whole undecodable rest (`TailWritten`: every
-script whose pushes are complete, and those whose cut-short last push is cut right after its opcode / inside its length
-field's first missing byte), the bytes `_signature_hash` digests are the bytes Core's `CTransactionSignatureSerializer`
-writes (every NONE/SINGLE/ANYONECANPAY combination, any value of the unused bits), and the early return happens exactly
-when consensus returns the constant one.  (For the remaining script codes see `C04_codeseparator_strip` and
-`C04_codeseparator_strip_refuted`.) -/
+/-- C04.legacy_preimage_eq (widest scope): for every transaction with fields in range, every input index, every 32-bit
+hash-type word and every script code of which Core's `SerializeScriptCode` writes the whole undecodable rest
+(`TailWritten`: every script whose pushes are complete, and those that end in a push opcode without any payload byte),
+the bytes `_signature_hash` digests are the bytes Core's `CTransactionSignatureSerializer` writes (every
+NONE/SINGLE/ANYONECANPAY combination, any value of the unused bits), and the early return happens exactly when
+consensus returns the constant one.  For the remaining script codes see `C04_codeseparator_strip` (what the two
+serialisations share) and `C04_codeseparator_strip_refuted`. -/
 theorem C04_legacy_preimage_eq_tailWritten (c : Coin) (tx : Tx) (hwf : tx.WF) (idx : Nat) (hidx : idx < tx.ins.length)
     (script : Bytes) (hc : TailWritten script) (hlen : LenOk script) (ht : Nat) (hht : ht < 2 ^ 32) :
     Sighash.legacyPreimage c tx script idx ht =
